@@ -1,0 +1,15 @@
+//go:build verif
+
+// Contracts for the deductive verifier under /verif (comment-only file: it
+// adds no code; compiled only with -tags verif).
+package atomicfile
+
+// C19: the target path is replaced by ONE rename of a fully written, synced,
+// closed and chmod-ed temp file that lives in the same directory; nothing else
+// ever writes the target path.
+//verif:func WriteFile(path, content, perm) (err)
+//verif:call[temp-in-target-dir] os.CreateTemp requires arg0 == result_of("filepath.Dir", 0) && called("filepath.Dir")
+//verif:call[rename-is-the-commit-point] os.Rename requires arg1 == path && arg0 == tmpPath && succeeded("os.CreateTemp") && succeeded("os.(*File).Write") && succeeded("os.(*File).Sync") && succeeded("os.(*File).Close") && succeeded("os.Chmod")
+//verif:call[chmod-temp-only] os.Chmod requires arg0 == tmpPath
+//verif:ensures[success-means-renamed] err == nil ==> succeeded("os.Rename") && count("os.Rename") == 1
+//verif:ensures[single-rename] count("os.Rename") <= 1
